@@ -78,7 +78,7 @@ CLAIMED = {
             "TLC explores beam search (any top-W subset at every step, exact rational scores) over the TSP/CVRP models with invariants "
             "complete+feasible, distinct, W beams; the real BeamSearch with the same table policy must return one of the allowed "
             "beam sets with each beam's own per-step log-probabilities and reward, and select_best the maximum of the instance's beams."),
-    "C17": ("model_checking", "6", "Loader.tla (loader order, partial batches, extra values via evaluation batches) and TrainingRun.tla (which baseline values a batch carries along a whole training run), TLC exhaustive; replay + LoaderTrace.tla / TrainingRunTrace.tla on real dataset classes / DataLoader / RolloutBaseline / REINFORCE / RL4COTrainer.fit",
+    "C17": ("model_checking", "6", "Loader.tla (loader order, partial batches, extra values via evaluation batches) and TrainingRun.tla (which baseline values a batch carries along a whole training run), TLC exhaustive; replay + LoaderTrace.tla / TrainingRunTrace.tla on real dataset classes / DataLoader / RolloutBaseline / REINFORCE / RL4COTrainer.fit; Routing.tla (which instances feed which phase: files, lists, names, batch-size fall-backs) TLC exhaustive over 5400 configurations, replayed into the real env + module, RoutingTrace.tla on real fit / test runs",
             "All (n, batch size, evaluation batch size, loader order) of a small scope are model-checked (no loss/duplication, extra of its "
             "own item, batch sizes); unshuffled behaviours are replayed through the real dataset classes wrapped by RolloutBaseline; "
             "recorded passes (all classes, shuffle, extra key, RL4COLitModule._dataloader_single) are validated by LoaderTrace.tla. TrainingRun.tla "
